@@ -68,7 +68,7 @@ impl XRule
             omit : v["omit"].as_u64().unwrap_or(0) as usize,
             mask : v["mask"].as_array().map(|a| a.iter().map(|x| x.as_u64().unwrap_or(0) as usize).collect()).unwrap_or_default(),
             x : v["x"].as_bool().unwrap_or(false), pf : v["pf"].as_bool().unwrap_or(false), pk : cl.iter().any(|l| l == "vcmd killed"),
-            layout : if cl.iter().any(|l| l == "vcmd") { 1 } else { 0 }, rev : false, flat : false,
+            layout : if cl.iter().any(|l| l == "vcmd") { 1 } else { 0 }, rev : false, flat : v["flat"].as_bool().unwrap_or(false),
         }
     }
 }
